@@ -33,6 +33,10 @@ impl Shared {
         self.total += 1;
         if self.halt_at > 0 && self.total == self.halt_at {
             env.halt.store(true, Ordering::SeqCst);
+            // the flag is a raise-only signal shared by every holder: a second Env that shares it (what a command running a
+            // nested script with the caller's flag creates) comes and goes without the request being lost
+            let nested = Env::new(Some(Box::new(std::io::sink())), Some(Box::new(std::io::sink())), Some(env.halt.clone()));
+            drop(nested);
         }
     }
 }
